@@ -143,19 +143,22 @@ Proof.
       * apply IH in H; auto.
 Qed.
 
-Lemma sq_tokens_shape quotes : forall n i tokens stack,
-  StackOK tokens stack -> map erase_text (sq_tokens n quotes i tokens stack) = map erase_text tokens.
+Lemma sq_tokens_shape quotes : forall n i tokens stack inside,
+  StackOK tokens stack -> map erase_text (sq_tokens n quotes i tokens stack inside) = map erase_text tokens.
 Proof.
-  induction n as [|n IH]; intros i tokens stack Hs; cbn [sq_tokens]; [reflexivity|].
+  induction n as [|n IH]; intros i tokens stack inside Hs; cbn [sq_tokens]; [reflexivity|].
   destruct (nth_error tokens i) as [t|] eqn:N; [|reflexivity].
-  destruct (negb (str_eqb (ttype t) s_text)) eqn:ET.
+  match goal with |- context [if negb (str_eqb (ttype t) s_text) || negb (?k =? 0) then _ else _] => set (ins := k) end.
+  destruct (negb (str_eqb (ttype t) s_text)) eqn:ET; cbn [orb].
   - apply IH, truncate_ok, Hs.
-  - destruct (sq_while (S (length (tcontent t))) quotes i (tlevel t) tokens (truncate_stack stack (tlevel t)) (tcontent t) 0)
-      as [tokens' stack'] eqn:W.
-    assert (Hi : is_text_at tokens i).
-    { unfold is_text_at. rewrite N. apply Bool.negb_false_iff in ET. exact ET. }
-    destruct (sq_while_shape quotes i (tlevel t) _ _ _ _ _ _ _ Hi (truncate_ok _ _ _ Hs) W) as [A [B _]].
-    rewrite IH by exact B. exact A.
+  - destruct (negb (ins =? 0)).
+    + apply IH, truncate_ok, Hs.
+    + destruct (sq_while (S (length (tcontent t))) quotes i (tlevel t) tokens (truncate_stack stack (tlevel t)) (tcontent t) 0)
+        as [tokens' stack'] eqn:W.
+      assert (Hi : is_text_at tokens i).
+      { unfold is_text_at. rewrite N. apply Bool.negb_false_iff in ET. exact ET. }
+      destruct (sq_while_shape quotes i (tlevel t) _ _ _ _ _ _ _ Hi (truncate_ok _ _ _ Hs) W) as [A [B _]].
+      rewrite IH by exact B. exact A.
 Qed.
 
 Theorem process_inlines_shape quotes tokens :
